@@ -172,7 +172,7 @@ class Vals:
         """one of the two singletons"""
         return self.TRUE if it.path.choose(2) == 0 else self.FALSE
 
-    def date(self, it, name="d", midnight=False, min_year=1900):
+    def date(self, it, name="d", midnight=False, min_year=1):
         fs = [SInt(z3.Int(f"{name}.{f}")) for f in ("year", "month", "day")]
         if midnight:
             ts = [0, 0, 0, 0]
@@ -447,7 +447,7 @@ def date_abstractions(w):
         d = a[0]
         if not (isinstance(d, Obj) and d.cls.name == "datetime"):
             it.check("pre:to_oa_date:argument-is-datetime", False, node)
-        it.check("pre:to_oa_date:year>=1900", zi(d.fields["year"]) >= 1900, node)
+        it.check("pre:to_oa_date:year>=1", zi(d.fields["year"]) >= 1, node)
         n = date_N(d)
         if all(isinstance(d.fields[f], int) and d.fields[f] == 0 for f in ("hour", "minute", "second", "microsecond")):
             return SFloat(z3.ToReal(n), intz=n)
